@@ -93,3 +93,27 @@ func VerifDecodeInt(bits int, signed bool, buf []byte) (res string) {
 	}
 	return fmt.Sprintf("ok %d %d", v1&keep, c1)
 }
+
+// VerifDecodeString runs the buffer-mode string scanner + in-place unescape on a private copy of
+// buf at cursor 0 (buf must carry its NUL sentinel): "ok <hex> <cursor>", "nostore <cursor>",
+// "err type|syntax|other" or "oob".
+func VerifDecodeString(buf []byte) (res string) {
+	defer func() {
+		if r := recover(); r != nil {
+			res = "oob"
+		}
+	}()
+	b := append([]byte{}, buf...)
+	d := newStringDecoder("", "")
+	lit, c, err := d.decodeByte(b, 0)
+	if err != nil {
+		return verifErrClass(err)
+	}
+	if lit == nil {
+		return fmt.Sprintf("nostore %d", c)
+	}
+	if len(lit) == 0 {
+		return fmt.Sprintf("ok - %d", c)
+	}
+	return fmt.Sprintf("ok %x %d", lit, c)
+}
